@@ -143,6 +143,20 @@ where
         // fixpoint queries: a memo from an abandoned cancellation epoch in this revision doesn't
         // seed the retry, while a memo from an older revision remains useful for backdating and
         // output bookkeeping. Cancellation counts are only comparable within a revision.
+        #[cfg(salsa_rs_salsa_verif)]
+        let verif_had_old_memo = opt_old_memo.is_some();
+        #[cfg(salsa_rs_salsa_verif)]
+        if let Some(old_memo) = opt_old_memo {
+            crate::verif_conc::emit(crate::verif_conc::Ev::PrevIterIn {
+                cur_rev: current_revision.as_usize(),
+                cur_count: cancellation_count,
+                verified_at: old_memo.header.verified_at.load().as_usize(),
+                stamp: old_memo.header.revisions.iteration().verif_bits(),
+                has_value: old_memo.value.is_some(),
+                is_head: old_memo.header.cycle_heads().contains(&database_key_index),
+            });
+        }
+
         if let Some(old_memo) = opt_old_memo
             && old_memo.header.verified_at.load() == current_revision
         {
@@ -160,6 +174,15 @@ where
                 }
                 None => opt_old_memo = None,
             }
+        }
+
+        #[cfg(salsa_rs_salsa_verif)]
+        if verif_had_old_memo {
+            crate::verif_conc::emit(crate::verif_conc::Ev::PrevIterOut {
+                kept: opt_old_memo.is_some(),
+                reuse: last_provisional_memo_opt.is_some(),
+                iteration: iteration.verif_bits(),
+            });
         }
 
         let _poison_guard =
@@ -493,6 +516,8 @@ struct DisableLocalCancellationGuard<'a> {
 
 impl<'a> DisableLocalCancellationGuard<'a> {
     fn new(zalsa_local: &'a ZalsaLocal) -> Self {
+        #[cfg(salsa_rs_salsa_verif)]
+        crate::verif_conc::emit(crate::verif_conc::Ev::DisGuardNew);
         Self {
             zalsa_local,
             was_disabled: zalsa_local.set_cancellation_disabled(true),
@@ -502,6 +527,8 @@ impl<'a> DisableLocalCancellationGuard<'a> {
 
 impl Drop for DisableLocalCancellationGuard<'_> {
     fn drop(&mut self) {
+        #[cfg(salsa_rs_salsa_verif)]
+        crate::verif_conc::emit(crate::verif_conc::Ev::DisGuardDrop);
         self.zalsa_local
             .set_cancellation_disabled(self.was_disabled);
     }
